@@ -10,10 +10,10 @@ CHECKS = {
  "C02": ("arxv-seq", "generated single-source operator chains x item sequences x endings x parameters, and every creation function; exact trace equality with an independent reference interpreter (differential).",
          "trusted: the reference interpreter harness/src/model.rs and its conventions (DESIGN.md 2.5)",
          PBT + " with a differential oracle (reference interpreter mini-Rx)"),
- "C03": ("arxv-seq", "generated multi-source pipelines (merge, concat, zip, combine_latest, amb, take_until, skip_until, sample, flat_map, sequence_equal, ready_set_go) over hot sources driven in a generated sequential order and cold sources; exact trace equality with the reference interpreter.",
+ "C03": ("arxv-seq", "generated multi-source pipelines (merge, concat, zip, combine_latest, amb, take_until, skip_until, sample, flat_map, sequence_equal, ready_set_go) over hot sources (harness sources and the crate's own subjects) driven in a generated sequential order and cold sources; exact trace equality with the reference interpreter; switch_on_next over two hot inputs against a trace computed from the history.",
          "trusted: reference interpreter; inputs subscribed left to right / trigger first; trigger terminals ignored",
          PBT + " with a differential oracle (reference interpreter mini-Rx)"),
- "C04": ("arxv-seq", "generated pipelines with errors at every script position, retry / retry_when / on_error_resume_next over sources whose k-th subscription differs; trace equality with the reference, payload type identity, exactly-once error, subscription counts; metamorphic materialize/dematerialize round trip.",
+ "C04": ("arxv-seq", "generated pipelines with errors at every script position, retry / retry_when / on_error_resume_next over sources whose k-th subscription differs and over Subject / BehaviorSubject / ReplaySubject sources resubscribed from inside their own error delivery; trace equality with the reference, payload type identity, exactly-once error, subscription counts; metamorphic materialize/dematerialize round trip.",
          "trusted: reference interpreter; retry(n) accepted as n or n+1 subscriptions",
          PBT + " with differential and metamorphic (round-trip) oracles"),
  "C05": ("arxv-seq", "generated pipelines with unsubscribe / repeated unsubscribe / Using-drop / unsubscribe-from-callback at generated positions; stamped-history oracle (no callback started after unsubscribe returned, is_subscribed time line); cross-thread part under generated schedules.",
@@ -35,33 +35,33 @@ CHECKS.update({
          "trusted: arx_rt lock model (writer-preferring futex RwLock, recursive read deadlocks when a writer is queued); bounded schedules",
          PBT + " with the controlled runtime's deadlock / livelock verdict as oracle" + CONC),
  "C08": ("arxv-conc", "generated post/abort call sequences from 1..3 poster threads (tasks that yield, post, abort)" + CONC + "; stamped-history oracle: at-most-once, one at a time on one non-poster thread, FIFO up to concurrency, nothing after abort, no lost wake-up, clean stop, default scheduler synchronous.",
-         "trusted: arx_rt condvar model (no spurious wake-ups injected; FIFO/LIFO notify choice generated)",
+         "trusted: arx_rt condvar model (spurious wake-ups and the FIFO/LIFO notify choice are generated as part of the schedule)",
          PBT + " with a stamped-history oracle" + CONC),
- "C09": ("arxv-conc", "generated scripts through [ops] observe_on|subscribe_on (also stacked) [ops] with an emitter thread or a synchronous source and an optional unsubscribing thread" + CONC + "; received must equal the reference trace without scheduler operators (prefix if unsubscribed), one worker thread, no overlapping callbacks.",
+ "C09": ("arxv-conc", "generated scripts through [ops] observe_on|subscribe_on (also stacked) [ops] with an emitter thread or a synchronous source, an optional unsubscribing thread, an optional item pushed from the subscriber's own callback on the worker, an optional second subscription of the same observable" + CONC + "; received must equal the reference trace without scheduler operators (prefix if unsubscribed), one worker thread, no overlapping callbacks.",
          "trusted: reference interpreter for the scheduler-free pipeline",
          PBT + " with differential + history oracles" + CONC),
- "C10": ("arxv-seq", "generated call histories over subscribe/unsubscribe/next/error/complete with 3 observers on the four subject types; per-observer traces and the registered-observer count after every call must equal the reference state machine.",
+ "C10": ("arxv-seq", "generated call histories over subscribe/unsubscribe/next/error/complete with 3 observers on the four subject types, including a subscribe or a next issued from inside a callback; per-observer traces and the registered-observer count after every call must equal the reference state machine.",
          "trusted: reference state machine (model.rs MHot); observer count accessor appended to the generated copy",
          PBT + " (stateful: generated call histories) with a reference state machine"),
- "C11": ("arxv-conc", "2..3 inputs with unique item scripts pushed by harness threads or played on scheduler threads into merge / zip / amb / concat / flat_map, optional take" + CONC + "; conservation, per-input order, pairing, exactly one complete and last, take(n) <= n.",
+ "C11": ("arxv-conc", "2..3 inputs with unique item scripts pushed by harness threads or played on scheduler threads into merge / zip / amb / concat / flat_map, optional take or aggregate (count / sum / reduce / max) downstream" + CONC + "; conservation, per-input order, pairing, exactly one complete and last, take(n) <= n, aggregate over all inputs' items.",
          "schedules explored by generation, not exhaustively",
          PBT + " with conservation / ordering invariants" + CONC),
  "C12": ("arxv-conc", "producer threads, a late subscriber thread and a leaving thread on Subject / BehaviorSubject / ReplaySubject" + CONC + "; exactly-once, gap-free per-producer runs, replay completeness in push order, behavior: value then all later values. Two open known findings (late Behavior/Replay subscriber racing a push) are reported and excluded by construction.",
          "push order = order of the producers' call/return stamps",
          PBT + " with stamped-history invariants" + CONC),
  "C13": ("arxv-seq", "generated call histories over subscribe/unsubscribe/connect/disconnect/source events on publish / ref_count / replay over hot, cold-synchronous and per-subscription sources; per-subscriber traces, source subscription counts and final liveness must equal the reference state machine.",
-         "trusted: reference state machine (model.rs MConn); reconnection to a finished source not generated (unspecified)",
+         "trusted: reference state machine (model.rs MConn); a second connection of replay() and ref_count over a terminated hot source are not generated (unspecified)",
          PBT + " (stateful: generated call histories) with a reference state machine"),
  "C15": ("arxv-conc", "generated pipelines over interval / timer / observe_on / subscribe_on / delay / debounce / timeout ended by terminal, unsubscribe or early completion at generated virtual instants" + CONC + "; at quiescence every library-spawned thread must have finished within the pipeline's timer periods after the last subscription ended.",
          "virtual clock (computation takes no time); bound = sum of the periods in the pipeline",
          PBT + " on a virtual clock with a thread-table oracle" + CONC),
- "C16": ("arxv-conc", "period x gap-script grid for interval, timer, delay, timeout, sample, debounce, time_interval" + CONC + "; (virtual time, event) pairs must equal the timing definition.",
+ "C16": ("arxv-conc", "period x gap-script grid for interval, timer, delay, timeout, sample, debounce, time_interval, and delay fed by two emitting threads" + CONC + "; (virtual time, event) pairs must equal the timing definition.",
          "virtual clock owned by the runtime (thread::sleep / Instant redirected)",
          PBT + " on a virtual clock with an exact timing oracle" + CONC),
- "C18": ("arxv-conc", "scripts pushed by an emitter thread (directly or through observe_on) or synchronously, awaited by a condvar block_on" + CONC + "; the future resolves, never before the terminal, with exactly the items / the error.",
+ "C18": ("arxv-conc", "scripts pushed by an emitter thread (directly or through observe_on) or synchronously, awaited by a condvar block_on, optionally polled first with another waker or with a clone of the future dropped meanwhile" + CONC + "; the future resolves, never before the terminal, with exactly the items / the error.",
          "the waker is std::task::Wake on an Arc<flag+condvar> built on the facade",
          PBT + " with lost-wake-up detection by the controlled runtime" + CONC),
- "C19": ("arxv-conc", "2..3 threads over merge / zip / amb / flat_map / take_until / skip_until / sample / the four subjects with one thread signalling a terminal while another emits" + CONC + "; at most one terminal, nothing for an emission that started after the terminal callback returned.",
+ "C19": ("arxv-conc", "2..3 threads over merge / zip / amb / flat_map / take_until / skip_until / sample / the four subjects with one thread signalling a terminal while another emits or while a subscriber is being handed a subject's history" + CONC + "; at most one terminal, nothing for an emission that started after the terminal callback returned.",
          "a callback already in flight when the terminal callback returns is tolerated, as the statement allows",
          PBT + " with a stamped-history oracle" + CONC),
 })
